@@ -50,6 +50,59 @@ def build_harness():
     _built = True
 
 
+# --------------------------------------------------------------------------------------------------
+# selftest (DESIGN.md 4.4): VERIF_SELFTEST=<seed> corrupts ONE recorded value per harness run (resp. one expected
+# value per replayed instance); the check must then report a violation.  Nothing of this is active otherwise.
+# --------------------------------------------------------------------------------------------------
+SELFTEST = os.environ.get("VERIF_SELFTEST")
+SELFTEST_LOG = []
+_RECORDERS = {"c07", "c08", "c09", "c10", "c11", "c12", "c13", "c16", "c17", "c19", "c20", "ser-layout"}
+
+
+def _int_leaves(o, path, out):
+    if isinstance(o, bool):
+        return
+    if isinstance(o, int):
+        out.append(path)
+    elif isinstance(o, str) and o.isdigit() and len(o) > 9:
+        out.append(path)
+    elif isinstance(o, list):
+        for i, x in enumerate(o):
+            _int_leaves(x, path + [i], out)
+    elif isinstance(o, dict):
+        for k in sorted(o):
+            _int_leaves(o[k], path + [k], out)
+
+
+def selftest_corrupt_record(text, args):
+    """adds 1 to one integer of one recorded event (seeded choice)"""
+    import random
+    lines = text.splitlines()
+    rng = random.Random("%s/%s/%d" % (SELFTEST, " ".join(map(str, args[:2])), len(SELFTEST_LOG)))
+    cand = [i for i, l in enumerate(lines) if l.startswith("{")]
+    rng.shuffle(cand)
+    for i in cand[:20]:
+        try:
+            o = json.loads(lines[i])
+        except Exception:
+            continue
+        leaves = []
+        _int_leaves(o, [], leaves)
+        if not leaves:
+            continue
+        path = rng.choice(leaves)
+        x = o
+        for k in path[:-1]:
+            x = x[k]
+        old = x[path[-1]]
+        x[path[-1]] = str(int(old) + 1) if isinstance(old, str) else old + 1
+        lines[i] = json.dumps(o)
+        SELFTEST_LOG.append({"recorder": " ".join(map(str, args[:2])), "line": i, "path": path, "old": old})
+        log("SELFTEST-CORRUPTED " + json.dumps(SELFTEST_LOG[-1]))
+        break
+    return "\n".join(lines) + "\n"
+
+
 def hcv(args, timeout=600, input=None, env=None):
     e = dict(os.environ, RUST_BACKTRACE="0")
     if env:
@@ -57,6 +110,8 @@ def hcv(args, timeout=600, input=None, env=None):
     r = subprocess.run([HCV] + list(args), stdout=subprocess.PIPE, stderr=subprocess.PIPE, text=True, timeout=timeout, input=input, env=e)
     if r.returncode != 0:
         raise ToolError("hcv %s failed (%d): %s" % (" ".join(args[:2]), r.returncode, r.stderr[-2000:]))
+    if SELFTEST and args and args[0] in _RECORDERS:
+        return selftest_corrupt_record(r.stdout, args)
     return r.stdout
 
 
@@ -297,8 +352,13 @@ class Report:
         self.violations.append((sig, replay))
 
     def finish(self):
-        os.makedirs(EVID, exist_ok=True)
-        rd = os.path.join(REPLAYS, self.prop)
+        evid, replays = EVID, REPLAYS
+        if SELFTEST:      # a selftest run must not touch the evidence of the real check
+            evid = os.path.join(WORK, "selftest", "evidence_%s" % SELFTEST)
+            replays = os.path.join(WORK, "selftest", "replays_%s" % SELFTEST)
+            self.cov["selftest_corruptions"] = SELFTEST_LOG
+        os.makedirs(evid, exist_ok=True)
+        rd = os.path.join(replays, self.prop)
         os.makedirs(rd, exist_ok=True)
         for fid, (f, n) in sorted(self.known_hits.items()):
             print("KNOWN-FINDING: property=%s %s (%d occurrence%s in this run)" % (self.prop, f["what"], n, "" if n == 1 else "s"))
@@ -325,6 +385,6 @@ class Report:
             "violations": len(seen),
             "known_findings_hit": {fid: n for fid, (f, n) in self.known_hits.items()},
         }
-        json.dump(ev, open(os.path.join(EVID, self.prop + ".json"), "w"), indent=1)
+        json.dump(ev, open(os.path.join(evid, self.prop + ".json"), "w"), indent=1)
         sys.stdout.flush()
         return 1 if seen else 0
